@@ -3,6 +3,7 @@ package internals
 import (
 	"fmt"
 	"reflect"
+	"strings"
 
 	zconst "github.com/Oudwins/zog/zconst"
 )
@@ -11,7 +12,11 @@ func GetKeyFromField(field reflect.StructField, fallback string, tag *string) st
 	if tag != nil {
 		fieldTag, ok := field.Tag.Lookup(*tag)
 		if ok {
-			return fieldTag
+			// a source tag may carry options after the name (`json:"name,omitempty"`); without a name
+			// (`json:",omitempty"`) it does not name the key
+			if name, _, _ := strings.Cut(fieldTag, ","); name != "" {
+				return name
+			}
 		}
 	}
 	fieldTag, ok := field.Tag.Lookup(zconst.ZogTag)
